@@ -408,4 +408,16 @@ VARIANTS = [
     {'name': 'R4 acked-ids helper takes the PacketAck blocks only when nothing is appended', 'file': 'hippolyzer/lib/base/message/circuit.py', 'expect': 'C05.R4', 'old': '    def collect_acks(self, message: Message):\n        effective_acks = list(message.acks)\n        if message.name == "PacketAck":\n            effective_acks.extend(x["ID"] for x in message["Packets"])\n        for ack in effective_acks:\n', 'new': '    @staticmethod\n    def _acked_ids(msg: Message) -> List[int]:\n        acked_ids = list(msg.acks)\n        if msg.name == "PacketAck" and not msg.acks:\n            acked_ids.extend(x["ID"] for x in msg["Packets"])\n        return acked_ids\n\n    def collect_acks(self, message: Message):\n        for ack in self._acked_ids(message):\n'},
     {'name': 'P R9 tracker window default spelt as a class constant (refac8 G2/1)', 'file': 'hippolyzer/lib/proxy/circuit.py', 'expect': 'silent', 'old': '    def __init__(self, last_seen_id=0, maxlen=10000):\n', 'new': '    DEFAULT_MAXLEN: ClassVar[int] = 10000\n\n    def __init__(self, last_seen_id=0, maxlen=DEFAULT_MAXLEN):\n'},
     {'name': 'R9 proxied circuit shrinks the window below the class-constant default', 'expect': 'C05.R9', 'edits': [{'file': 'hippolyzer/lib/proxy/circuit.py', 'old': '    def __init__(self, last_seen_id=0, maxlen=10000):\n', 'new': '    DEFAULT_MAXLEN: ClassVar[int] = 10000\n\n    def __init__(self, last_seen_id=0, maxlen=DEFAULT_MAXLEN):\n'}, {'file': 'hippolyzer/lib/proxy/circuit.py', 'old': '        self.in_injections = InjectionTracker(0)\n', 'new': '        self.in_injections = InjectionTracker(0, maxlen=256)\n'}]},
+    # ------------------------------------------------------------------ refactor round 9
+    {'name': 'P R4 resend loop split into give-up / resend step methods (refac9 G2/3)', 'file': 'hippolyzer/lib/base/message/circuit.py', 'expect': 'silent', 'old': '            msg = copy.copy(resend_info.message)\n            resend_info.tries_left -= 1\n            # We were on our last try and we never received an ack\n            if not resend_info.tries_left:\n                logging.warning(f"Giving up on unacked {msg.packet_id}")\n                del self.unacked_reliable[(msg.direction, msg.packet_id)]\n                if not resend_info.completed.done():\n                    resend_info.completed.set_exception(TimeoutError("Exceeded resend limit"))\n                continue\n            resend_info.last_resent = _utcnow()\n            msg.send_flags |= PacketFlags.RESENT\n            try:\n                self._send_prepared_message(msg)\n            except Exception:\n                # One packet failing to go out mustn\'t keep the ones behind it from being resent\n                # or timed out, it gets its remaining tries like any other.\n                logging.exception(f"Failed to resend {msg.packet_id}")\n\n', 'new': '            msg = copy.copy(resend_info.message)\n            resend_info.tries_left -= 1\n            if not resend_info.tries_left:\n                self._give_up_resending(resend_info, msg)\n                continue\n            self._resend(resend_info, msg)\n\n    def _give_up_resending(self, resend_info, msg) -> None:\n        logging.warning(f"Giving up on unacked {msg.packet_id}")\n        del self.unacked_reliable[(msg.direction, msg.packet_id)]\n        if not resend_info.completed.done():\n            resend_info.completed.set_exception(TimeoutError("Exceeded resend limit"))\n\n    def _resend(self, resend_info, msg) -> None:\n        resend_info.last_resent = _utcnow()\n        msg.send_flags |= PacketFlags.RESENT\n        try:\n            self._send_prepared_message(msg)\n        except Exception:\n            logging.exception(f"Failed to resend {msg.packet_id}")\n\n'},
+    {'name': 'R4 split resend loop: the give-up step forgets the removal', 'file': 'hippolyzer/lib/base/message/circuit.py', 'expect': 'C05.R4', 'old': '            msg = copy.copy(resend_info.message)\n            resend_info.tries_left -= 1\n            # We were on our last try and we never received an ack\n            if not resend_info.tries_left:\n                logging.warning(f"Giving up on unacked {msg.packet_id}")\n                del self.unacked_reliable[(msg.direction, msg.packet_id)]\n                if not resend_info.completed.done():\n                    resend_info.completed.set_exception(TimeoutError("Exceeded resend limit"))\n                continue\n            resend_info.last_resent = _utcnow()\n            msg.send_flags |= PacketFlags.RESENT\n            try:\n                self._send_prepared_message(msg)\n            except Exception:\n                # One packet failing to go out mustn\'t keep the ones behind it from being resent\n                # or timed out, it gets its remaining tries like any other.\n                logging.exception(f"Failed to resend {msg.packet_id}")\n\n', 'new': '            msg = copy.copy(resend_info.message)\n            resend_info.tries_left -= 1\n            if not resend_info.tries_left:\n                self._give_up_resending(resend_info, msg)\n                continue\n            self._resend(resend_info, msg)\n\n    def _give_up_resending(self, resend_info, msg) -> None:\n        logging.warning(f"Giving up on unacked {msg.packet_id}")\n        if not resend_info.completed.done():\n            resend_info.completed.set_exception(TimeoutError("Exceeded resend limit"))\n\n    def _resend(self, resend_info, msg) -> None:\n        resend_info.last_resent = _utcnow()\n        msg.send_flags |= PacketFlags.RESENT\n        try:\n            self._send_prepared_message(msg)\n        except Exception:\n            logging.exception(f"Failed to resend {msg.packet_id}")\n\n'},
+    {'name': 'R4 split resend loop: the resend step forgets RESENT', 'file': 'hippolyzer/lib/base/message/circuit.py', 'expect': 'C05.R4', 'old': '            msg = copy.copy(resend_info.message)\n            resend_info.tries_left -= 1\n            # We were on our last try and we never received an ack\n            if not resend_info.tries_left:\n                logging.warning(f"Giving up on unacked {msg.packet_id}")\n                del self.unacked_reliable[(msg.direction, msg.packet_id)]\n                if not resend_info.completed.done():\n                    resend_info.completed.set_exception(TimeoutError("Exceeded resend limit"))\n                continue\n            resend_info.last_resent = _utcnow()\n            msg.send_flags |= PacketFlags.RESENT\n            try:\n                self._send_prepared_message(msg)\n            except Exception:\n                # One packet failing to go out mustn\'t keep the ones behind it from being resent\n                # or timed out, it gets its remaining tries like any other.\n                logging.exception(f"Failed to resend {msg.packet_id}")\n\n', 'new': '            msg = copy.copy(resend_info.message)\n            resend_info.tries_left -= 1\n            if not resend_info.tries_left:\n                self._give_up_resending(resend_info, msg)\n                continue\n            self._resend(resend_info, msg)\n\n    def _give_up_resending(self, resend_info, msg) -> None:\n        logging.warning(f"Giving up on unacked {msg.packet_id}")\n        del self.unacked_reliable[(msg.direction, msg.packet_id)]\n        if not resend_info.completed.done():\n            resend_info.completed.set_exception(TimeoutError("Exceeded resend limit"))\n\n    def _resend(self, resend_info, msg) -> None:\n        resend_info.last_resent = _utcnow()\n        try:\n            self._send_prepared_message(msg)\n        except Exception:\n            logging.exception(f"Failed to resend {msg.packet_id}")\n\n'},
+    {'name': 'P R4 resend pass as a synchronous method the timer calls (refac9 G2/5)', 'file': 'hippolyzer/lib/proxy/lludp_proxy.py', 'expect': 'silent', 'old': '    async def attempt_resends(self):\n        while True:\n            await asyncio.sleep(0.1)\n            if self.session is None:\n                continue\n            for region in self.session.regions:\n                # Not gated on `is_alive`: a circuit that was marked dead by CloseCircuit / DisableSimulator\n                # still forwards and may have reliable packets of ours in flight, those need their resends\n                # (and a failure when they run out) too. A no-op once its unacked table has drained.\n                if not region.circuit:\n                    continue\n                region.circuit.resend_unacked()\n\n', 'new': '    async def attempt_resends(self):\n        while True:\n            await asyncio.sleep(0.1)\n            self._resend_pass()\n\n    def _resend_pass(self) -> None:\n        if self.session is None:\n            return\n        for region in self.session.regions:\n            if not region.circuit:\n                continue\n            region.circuit.resend_unacked()\n\n'},
+    {'name': 'R4 resend pass method gated on is_alive', 'file': 'hippolyzer/lib/proxy/lludp_proxy.py', 'expect': 'C05.R4', 'old': '    async def attempt_resends(self):\n        while True:\n            await asyncio.sleep(0.1)\n            if self.session is None:\n                continue\n            for region in self.session.regions:\n                # Not gated on `is_alive`: a circuit that was marked dead by CloseCircuit / DisableSimulator\n                # still forwards and may have reliable packets of ours in flight, those need their resends\n                # (and a failure when they run out) too. A no-op once its unacked table has drained.\n                if not region.circuit:\n                    continue\n                region.circuit.resend_unacked()\n\n', 'new': '    async def attempt_resends(self):\n        while True:\n            await asyncio.sleep(0.1)\n            self._resend_pass()\n\n    def _resend_pass(self) -> None:\n        if self.session is None:\n            return\n        for region in self.session.regions:\n            if not region.circuit or not region.circuit.is_alive:\n                continue\n            region.circuit.resend_unacked()\n\n'},
+    {'name': 'P R9 trackers built through a factory local that defaults to the class (refac9 G2/2)', 'file': 'hippolyzer/lib/proxy/circuit.py', 'expect': 'silent', 'old': '        self.in_injections = InjectionTracker(0)\n        self.out_injections = InjectionTracker(0)\n', 'new': '        tracker_factory = None\n        if tracker_factory is None:\n            tracker_factory = InjectionTracker\n        self.in_injections = tracker_factory(0)\n        self.out_injections = tracker_factory(0)\n'},
+    {'name': 'R9 factory local called with a small window', 'file': 'hippolyzer/lib/proxy/circuit.py', 'expect': 'C05.R9', 'old': '        self.in_injections = InjectionTracker(0)\n        self.out_injections = InjectionTracker(0)\n', 'new': '        tracker_factory = None\n        if tracker_factory is None:\n            tracker_factory = InjectionTracker\n        self.in_injections = tracker_factory(0, 64)\n        self.out_injections = tracker_factory(0, 64)\n'},
+    # ------------------------------------------------------------------ round 9 seeds
+    {'name': 'R4 mark_dead tears the circuit down with disconnect() (seed C05-r9-1)', 'file': 'hippolyzer/lib/client/state.py', 'expect': 'C05.R4', 'old': '            self.circuit.is_alive = False\n', 'new': '            self.circuit.disconnect()\n'},
+    {'name': 'R4 mark_dead clears the unacked table itself', 'file': 'hippolyzer/lib/client/state.py', 'expect': 'C05.R4', 'old': '            self.circuit.is_alive = False\n', 'new': '            self.circuit.is_alive = False\n            self.circuit.unacked_reliable.clear()\n'},
+    {'name': 'P R4 mark_dead flags the circuit through a helper of the region', 'expect': 'silent', 'edits': [{'file': 'hippolyzer/lib/client/state.py', 'old': '        if self.circuit:\n            self.circuit.is_alive = False\n        self.objects.clear()\n', 'new': '        self._flag_circuit_dead()\n        self.objects.clear()\n\n    def _flag_circuit_dead(self):\n        circuit = self.circuit\n        if circuit is not None:\n            circuit.is_alive = False\n'}]},
 ]
